@@ -343,7 +343,7 @@ func workerMain(thorough bool, shard, of, from int, deadline int64, journal stri
 			defer pprof.StopCPUProfile()
 		}
 	}
-	g := generate(thorough, func(i int) bool { return i >= from && i%of == shard }, false)
+	g := generate(thorough, func(i int) bool { return i%of == shard }, false)
 	var jf *os.File
 	if journal != "" {
 		f, err := os.OpenFile(journal, os.O_CREATE|os.O_WRONLY, 0o644)
@@ -357,21 +357,27 @@ func workerMain(thorough bool, shard, of, from int, deadline int64, journal stri
 	// journal = (case about to run, case run before it), both +1, 0 = none.  The previous case is kept because a panic
 	// in a post-processor goroutine first runs that goroutine's deferred close(channel): the consumer may already have
 	// moved on to the next case when the runtime finally kills the process.
-	var buf [16]byte
+	var buf [24]byte
 	prev := uint64(0)
-	for n, c := range g.cases {
+	// visiting order: a fixed stride through the shard's list, so that a run cut by the deadline has covered every
+	// layer proportionally instead of only the first ones (order only; a complete run visits every case once)
+	nc := len(g.cases)
+	stride := strideFor(nc)
+	for n := from; n < nc; n++ { // from = visiting position to (re)start at
+		c := g.cases[int((int64(n)*int64(stride))%int64(nc))]
 		if deadline > 0 && n%32 == 0 && time.Now().UnixNano() > deadline {
 			sum.NextIdx = c.Idx
 			break
 		}
 		if jf != nil {
 			binary.LittleEndian.PutUint64(buf[:8], uint64(c.Idx)+1)
-			binary.LittleEndian.PutUint64(buf[8:], prev)
+			binary.LittleEndian.PutUint64(buf[8:16], prev)
+			binary.LittleEndian.PutUint64(buf[16:], uint64(n))
 			jf.WriteAt(buf[:], 0)
 			prev = uint64(c.Idx) + 1
 		}
 		// samples for the evidence file: two agreeing non-trivial cases per worker, taken from the middle of the shard
-		wantSample = len(sum.Samples) < 2 && n >= len(g.cases)/2
+		wantSample = len(sum.Samples) < 2 && n >= 16
 		o := evaluate(c, false)
 		sum.record(c, &o)
 	}
@@ -379,7 +385,7 @@ func workerMain(thorough bool, shard, of, from int, deadline int64, journal stri
 		// let a dying goroutine of the last case finish dying before the summary claims success
 		time.Sleep(20 * time.Millisecond)
 		binary.LittleEndian.PutUint64(buf[:8], 0)
-		binary.LittleEndian.PutUint64(buf[8:], 0)
+		binary.LittleEndian.PutUint64(buf[8:16], 0)
 		jf.WriteAt(buf[:], 0)
 	}
 	w := bufio.NewWriter(os.Stdout)
@@ -388,6 +394,27 @@ func workerMain(thorough bool, shard, of, from int, deadline int64, journal stri
 	w.Write(b)
 	w.WriteString("\n")
 	w.Flush()
+}
+
+// strideFor returns a stride near n/golden ratio that is coprime with n (so i*stride mod n is a permutation).
+func strideFor(n int) int {
+	if n < 3 {
+		return 1
+	}
+	gcd := func(a, b int) int {
+		for b != 0 {
+			a, b = b, a%b
+		}
+		return a
+	}
+	s := int(float64(n) * 0.6180339887)
+	if s < 1 {
+		s = 1
+	}
+	for gcd(s, n) != 1 {
+		s++
+	}
+	return s
 }
 
 // ---------------------------------------------------------------------------------------------------------------
@@ -402,12 +429,12 @@ type shardState struct {
 	err     error
 }
 
-func readJournal(path string) (cur, prev int) {
+func readJournal(path string) (cur, prev, pos int) {
 	b, err := os.ReadFile(path)
-	if err != nil || len(b) < 16 {
-		return -1, -1
+	if err != nil || len(b) < 24 {
+		return -1, -1, 0
 	}
-	return int(binary.LittleEndian.Uint64(b[:8])) - 1, int(binary.LittleEndian.Uint64(b[8:16])) - 1
+	return int(binary.LittleEndian.Uint64(b[:8])) - 1, int(binary.LittleEndian.Uint64(b[8:16])) - 1, int(binary.LittleEndian.Uint64(b[16:24]))
 }
 
 func runWorker(self string, thorough bool, shard, of, from int, deadline int64, journal string) (*summary, string, error) {
@@ -599,17 +626,17 @@ func main() {
 					st.sums = append(st.sums, sum)
 					return
 				}
-				cur, prev := readJournal(journal)
+				cur, prev, pos := readJournal(journal)
 				if cur < 0 {
 					st.err = fmt.Errorf("worker %d died outside a case: %v: %s", st.shard, err, tail(stderr, 12))
 					return
 				}
 				// re-run the journalled case alone three times; if it survives, the case before it (see workerMain)
-				idx, next := cur, cur+1
+				idx, next := cur, pos+1 // next = visiting position at which the shard restarts
 				rep, lastErr := dies(cur)
 				if rep < 3 && prev >= 0 {
 					if rp, le := dies(prev); rp == 3 {
-						idx, next, rep, lastErr = prev, cur, rp, le
+						idx, next, rep, lastErr = prev, pos, rp, le
 					}
 				}
 				if rep < 3 {
